@@ -1,6 +1,8 @@
 import Pyunicorn.Model.Proto
 import Pyunicorn.Model.Coupling
 import Pyunicorn.Model.Coupling2
+import Pyunicorn.Model.CouplingKnn
+import Pyunicorn.Model.Coupling3
 /-! Line-protocol driver for C10: one request per line on stdin, one answer per line. -/
 open Pyunicorn Pyunicorn.Proto Pyunicorn.Coupling
 
@@ -135,6 +137,51 @@ def answer (toks : List String) : String :=
           showRats (cells.map fun c => normInvSq P c.1 c.2) ++ "|" ++
           showRats (cells.map fun c => parCorrSqG G (others c.1 c.2) c.1 c.2) ++ "|" ++
           showNats (cells.map fun c => if pivotsOk G (others c.1 c.2) then 1 else 0)
+  | ["knn", t, dim, dimx, dimy, k, eps0, flat] =>
+      let T := t.toNat!; let dim := dim.toNat!; let dimx := dimx.toNat!; let dimy := dimy.toNat!
+      let k := k.toNat!
+      let f := ratFn (rats flat)
+      let arr : Nat → Nat → Rat := fun d s => f (d * T + s)
+      match knnAll arr T dim dimx dimy k 200 (ratD eps0) T with
+      | none => "loop"
+      | some st => showNats (st.out.map (·.1)) ++ ";" ++ showNats (st.out.map (·.2.1)) ++ ";" ++
+          showNats (st.out.map (·.2.2))
+  | ["tri", mode, n, tm, vals] =>
+      let N := n.toNat!; let tm := tm.toNat!
+      let f := ratFn (rats vals)
+      let cells := (rng N).flatMap fun i => (rng N).map fun j => (i, j)
+      if mode == "all" then
+        let val : Nat → Nat → Nat → Rat := fun t i j => f ((t * N + i) * N + j)
+        showRats ((rng (2 * tm + 1)).flatMap fun t => cells.map fun c => triAll val true N tm t c.1 c.2)
+      else
+        let v0 : Nat → Nat → Rat := fun i j => f (i * N + j)
+        let v1 : Nat → Nat → Rat := fun i j => f (N * N + i * N + j)
+        let r := if mode == "sum" then triSum v0 v1 true N else triMax v0 v1 true N
+        showRats (cells.map fun c => r.1 c.1 c.2) ++ ";" ++ showRats (cells.map fun c => r.2 c.1 c.2)
+  | ["pmihist", n, tm, cr, bins, flat] =>
+      let N := n.toNat!; let tm := tm.toNat!; let cr := cr.toNat!; let bins := bins.toNat!
+      let f := natFn (nats flat)
+      let S : Nat → Nat → Nat → Nat := fun t i k => f ((t * N + i) * cr + k)
+      sect ((rng N).flatMap fun i => (rng N).flatMap fun j => (rng (2 * tm + 1)).map fun t =>
+        let H := pureMiHist S tm cr bins i j t (fun _ => 0)
+        let clean := (rng (bins * bins + 2)).all fun c => pureMiReset bins H c == 0
+        showNats ((rng (bins * bins)).map H) ++ (if clean then "" else "!dirty"))
+  | ["pmimax", tm, vals] =>
+      let tm := tm.toNat!
+      let st := pureMiMaxScan (ratFn (rats vals)) tm (2 * tm + 1)
+      showRat st.1 ++ ";" ++ toString st.2
+  | ["tsurr", t, n, tm, sr, perm, flat] =>
+      let T := t.toNat!; let N := n.toNat!; let tm := tm.toNat!; let sr := sr.toNat!
+      let d := ratFn (rats flat); let p := natFn (nats perm)
+      let x : Nat → Nat → Rat := fun i k => d (i * T + k)
+      showRats ((rng (2 * tm + 1)).flatMap fun t => (rng N).flatMap fun i =>
+        (rng N).map fun j => timeSurrSq x p sr tm t i j)
+  | ["ssurr", t, n, cr, shuf, flat] =>
+      let T := t.toNat!; let N := n.toNat!; let cr := cr.toNat!
+      let d := ratFn (rats flat); let p := natFn (nats shuf)
+      let x : Nat → Nat → Rat := fun i k => d (i * T + k)
+      let sh : Nat → Nat → Nat := fun i s => p (i * T + s)
+      showRats ((rng N).flatMap fun i => (rng N).map fun j => shufSurrSq x sh cr 0 i j)
   | _ => "bad-request"
 
 def main : IO Unit := runDriver answer
